@@ -3,6 +3,7 @@
 findings from known-findings.json, seeded changes from seeded/*/meta.json."""
 import json, glob, os, re
 D='/verif/DESIGN.md'
+NEEDS=json.load(open('/verif/seeded/needs.json'))
 s=open(D).read()
 kf=json.load(open('/verif/known-findings.json'))['findings']
 rows=["| id | property | status | class | what |","|---|---|---|---|---|"]
@@ -17,7 +18,7 @@ ft="\n".join(rows)
 srows=["| change | property | needs | demo fails with / passes without | quick check on the changed tree |","|---|---|---|---|---|"]
 for m in sorted(glob.glob('/verif/seeded/C*-m*/meta.json')):
     j=json.load(open(m)); d=os.path.dirname(m)
-    needs=j.get('needs','see notes.md')
+    needs=NEEDS.get(os.path.basename(d), j.get('needs','see notes.md'))
     res={0:'NOT caught',1:'caught (VIOLATION)',2:'harness error'}.get(j.get('check_quick_exit'),str(j.get('check_quick_exit')))
     if j.get('caught_by'): res+=' — '+j['caught_by']
     srows.append("| %s | %s | %s | %s / %s | %s |"%(os.path.basename(d),j['property'],needs.replace('|','/')[:200],'yes' if j.get('demo_exit_with_patch') else 'NO','yes' if j.get('demo_exit_without_patch')==0 else 'NO',res))
